@@ -147,13 +147,21 @@ impl HttpProtocol {
     }
 }
 
+impl HttpProtocol {
+    /// The protocol used to send requests with the given HTTP version,
+    /// or `None` if the client can't send such requests.
+    pub fn from_version(version: ::http::Version) -> Option<Self> {
+        match version {
+            ::http::Version::HTTP_11 | ::http::Version::HTTP_10 => Some(Self::Http1),
+            ::http::Version::HTTP_2 => Some(Self::Http2),
+            _ => None,
+        }
+    }
+}
+
 impl From<::http::Version> for HttpProtocol {
     fn from(version: ::http::Version) -> Self {
-        match version {
-            ::http::Version::HTTP_11 | ::http::Version::HTTP_10 => Self::Http1,
-            ::http::Version::HTTP_2 => Self::Http2,
-            _ => panic!("Unsupported HTTP protocol"),
-        }
+        Self::from_version(version).expect("Unsupported HTTP protocol")
     }
 }
 
